@@ -654,7 +654,7 @@ def mpc_harmonic(z, prec, rnd):
     if z[1] == fzero:
         return (mpf_harmonic(z[0], prec, rnd), fzero)
     a = mpc_psi0(mpc_add_mpf(z, fone, prec+5), prec+5)
-    return mpc_add_mpf(a, mpf_euler(prec+5, rnd), prec, rnd)
+    return mpc_pos(mpc_add_mpf(a, mpf_euler(prec+5, rnd), prec, rnd), prec, rnd)
 
 def mpf_psi0(x, prec, rnd=round_fast):
     """
